@@ -9,10 +9,8 @@
  *   block 2: NCOPY commands; code table n=0, symbol C2 >= 256 -> every command is a copy of length C2-253;
  *            offset table n=0, symbol P2 -> every distance has P2 bits: 0, or 1 followed by P2-1 stream bits
  *   then the extra bits of the copies.
- * Symbolic: C1, C2 (copy length <= LENMAX), P2 <= 14, the extra bits (so the distances), T1, P1, short reads.
- * With TINY: block 1 instead has a real temp table (4 entries: lengths 0,2,2,skip 0,1) and a real two-symbol code
- * table A < B written with zero runs of symbolic length, A a literal and B a copy; commands are then coded with
- * one bit each (thorough tier). */
+ * Symbolic: C1, C2 (copy length <= LENMAX), P2 <= 14, the extra bits (so the distances), T1, P1.
+ */
 #ifndef CB_N
 #define CB_N 20
 #endif
@@ -66,16 +64,15 @@ static void put(unsigned v, unsigned n)
 
 void harness(void)
 {
-	INPUT_ARRAY(u8, shorts, CB_CALLS);
 	INPUT_ARRAY(u32, extra, NCOPY);
 	INPUT(u32, c1); INPUT(u32, c2); INPUT(u32, p2); INPUT(u32, t1); INPUT(u32, p1);
 	static u8 S[TOTAL];                    /* reference expansion */
-	static u8 out[1 << 14];
+	static u8 out[LENMAX > 8 ? LENMAX : 8];    /* functional harness: only the bytes of one command are written */
 	unsigned i, c, t, len, d[NCOPY];
 	size_t n;
 
 	ASSUME(c1 < 256 && c2 >= 256 && c2 < 510 && c2 - 253 <= LENMAX && p2 <= 14 && t1 < 32 && p1 < 16);
-	for (i = 0; i < CB_CALLS; ++i) cb_short[i] = shorts[i];
+	for (i = 0; i < CB_CALLS; ++i) cb_short[i] = 0;      /* callback delivers what is asked; short reads are bits.c's subject */
 	len = c2 - 253;
 
 	/* serialise */
@@ -110,7 +107,25 @@ void harness(void)
 		}
 	}
 
+#ifdef SPLIT_INIT
+	/* the state lha_lh_new_init establishes (shown on the real init by harness_init), built directly: window all
+	 * spaces, position 0, no block open, empty bit buffer; tree contents left ARBITRARY (a superset of the
+	 * initialised trees - the first block header overwrites what it needs) */
+	{
+		LHANewDecoder any;                /* uninitialised = arbitrary */
+		dec = any;
+#ifdef __CPROVER__
+		__CPROVER_array_set(dec.ringbuf, (uint8_t) ' ');
+#else
+		memset(dec.ringbuf, ' ', sizeof(dec.ringbuf));
+#endif
+		dec.ringbuf_pos = 0;
+		dec.block_remaining = 0;
+		bit_stream_reader_init(&dec.bit_stream_reader, cb_read, 0);
+	}
+#else
 	CHECK(lha_lh5_decoder.init(&dec, cb_read, 0) == 1, "C01 H01.e2e: init succeeds");
+#endif
 	t = 0;
 	for (i = 0; i < NLIT; ++i) {
 		n = lha_lh5_decoder.read(&dec, out);
